@@ -11,6 +11,11 @@ import common  # noqa: E402
 
 MODULES = {
     "C12": "h_path",
+    "C01": "h_fs",
+    "C05": "h_fs",
+    "C06": "h_fs",
+    "C10": "h_fs",
+    "C11": "h_fs",
 }
 
 
